@@ -78,7 +78,8 @@ class HybridRunner(ScenarioRunner):
                     output[series_name] = {} if series_name not in output.keys() else output[series_name]
                     output[series_name][t] = value
 
-        return pd.DataFrame(output).fillna(0)
+        # one row for every recorded time: a time at which none of the requested states is populated is a row of zeros, not a missing row
+        return pd.DataFrame(output, index=list(data.keys())).fillna(0)
 
     def run_scenario(self, abm_results_dict, return_format, scenarios, equations=[], agents=[], scenario_managers=[], progress_bar=False, agent_states=[], agent_properties=[], agent_property_types=[], rerun=False, widget=False):
         """
